@@ -12,6 +12,7 @@ import (
 	"fmt"
 	"runtime"
 	"sort"
+	"strings"
 	"sync"
 	"sync/atomic"
 	"testing"
@@ -41,6 +42,7 @@ type c14Gate struct {
 	// diagnostics
 	toRejected int
 	refused    int
+	sawFetcher bool // the goroutine listing showed this syncer's fetcher while it was known to be alive
 }
 
 var c14SettleTimeout = 40 * time.Second
@@ -118,6 +120,11 @@ func (g *c14Gate) settle() bool {
 		}
 		q.Unlock()
 		if ok {
+			if !g.sawFetcher && len(open) > 0 {
+				// the fetcher sits in a send right now: the goroutine listing must show it (otherwise the listing is not usable
+				// for this run and the "no fetcher left" judgement is never made)
+				g.sawFetcher = c14FetcherAlive(w.s)
+			}
 			// log newly observed requests in a deterministic order
 			for _, r := range g.open() {
 				if !r.seen {
@@ -129,6 +136,17 @@ func (g *c14Gate) settle() bool {
 				}
 			}
 			return true
+		}
+		// a chunk is missing from the queue and nobody is asked for it: if no fetcher goroutine exists any more (they run until the
+		// restore is over in the unchanged code), nobody ever will be — the refetch / discard the app asked for is not honoured.
+		// Goroutine exit is permanent, so this is not a timing judgement; it is looked at twice all the same.
+		if spins > 60 && g.sawFetcher && q.snapshot != nil && !c14FetcherAlive(w.s) {
+			time.Sleep(5 * time.Millisecond)
+			if !c14FetcherAlive(w.s) {
+				w.log(c14Ev{K: "nofetcher", H: q.snapshot.Height, F: q.snapshot.Format})
+				w.inconclusive = "a chunk is neither queued nor requested and no fetcher goroutine is left"
+				return false
+			}
 		}
 		if time.Now().After(deadline) {
 			g.mtx.Lock()
@@ -415,7 +433,11 @@ func TestVerifC14Fetch(t *testing.T) {
 		}
 		r.Eval()
 		r.Traces++
-		if res.Inconclusive != "" {
+		nofetcher := false
+		for _, e := range res.Journal {
+			nofetcher = nofetcher || e.K == "nofetcher"
+		}
+		if res.Inconclusive != "" && !nofetcher {
 			r.Cap("inconclusive run: " + res.Inconclusive)
 			r.Outcome("inconclusive")
 			r.Add("inconclusive_runs", 1)
@@ -509,4 +531,17 @@ func TestVerifC14Fetch(t *testing.T) {
 	r.MaxDepth = maxDepth
 	r.Set("runs_on_impl", total)
 	r.Bound = fmt.Sprintf("%d sweeps (scenario, L, Kv, Ka): %v", len(sweeps), sweeps)
+}
+
+// c14FetcherAlive reports whether a goroutine is executing fetchChunks of this syncer (the receiver is the first argument in the
+// goroutine listing; other worlds run in the same process).
+func c14FetcherAlive(s *syncer) bool {
+	buf := make([]byte, 1<<20)
+	for {
+		n := runtime.Stack(buf, true)
+		if n < len(buf) {
+			return strings.Contains(string(buf[:n]), fmt.Sprintf("statesync.(*syncer).fetchChunks(%p", s))
+		}
+		buf = make([]byte, 2*len(buf))
+	}
 }
